@@ -95,6 +95,22 @@ CLAIMED = {
             "are compared with a model after every step.",
             "Trusted: page/byte model; narrow counted relaxations after failed host calls and faulted accesses (see DESIGN 5, C24).",
             "5 (C24)"),
+    "C48": ("simB", "seeded allocation/fault-history simulation on the real allocators and VmMngr vs interval model, ddmin + replay",
+            "Seeded sampling of allocation histories per emulated OS (Windows: process heap, 7 allocation stubs called on a real x86 Jitter, "
+            "VirtualAlloc with hints; Linux: mmap anonymous/file/hinted/fixed, brk) with zero sizes, frees and foreign pages placed in the "
+            "allocators' way on a real VmMngr; every returned region is checked mapped, disjoint from live allocations and foreign pages, "
+            "and at a fresh address.",
+            "Trusted: interval model; VirtualAlloc on the start of an existing page is a re-commit and is not judged; two recorded open "
+            "findings (brk collision, zero-length mmap) are steered around in all but every 50th run.",
+            "5 (C48)"),
+    "C46": ("simB", "seeded guest-operation/adversary-history simulation with an os-level monitor, ddmin + replay",
+            "Seeded sampling of guest path operations (resolve/open/exists/readlink/stat/lstat; str and bytes; '.', '..', repeated "
+            "separators) interleaved with an adversary that re-arranges symlinks inside the sandbox (final and directory links, chains, "
+            "relative targets with '..', absolute targets), monitored at the os seam: every host path returned or touched must resolve, "
+            "as the kernel resolves it, under the sandbox base; canary bytes must never be read back; the Windows/POSIX mappers are "
+            "checked on the same path grammar.",
+            "Trusted: the recording os proxy and realpath() of the host kernel as ground truth; private scratch tree per run.",
+            "5 (C46)"),
 }
 
 
